@@ -449,6 +449,10 @@ class CheckHistories(Family):
     nontrivial_rule = 'history contains a chain selection followed by a check'
 
     EVENTS = [('sel', c) for c in C.CHAINS] + [('block', 'b1'), ('block', 'b2w'), ('header', 0x1e0377ae), ('header', 0x1d00ffff)]
+    # a header at exactly the signet limit (0x1e0377ae is representable exactly) whose nonce was ground once by the harness so
+    # that the proof of work is valid: accepted where the limit is >= that target (signet, regtest), refused on mainnet / testnet
+    GROUND_NONCE = 2298877
+    EVENTS = EVENTS + [('header_pow', 0x1e0377ae)]
 
     def shards(self, tier):
         return list(range(len(self.EVENTS)))
@@ -482,7 +486,9 @@ class CheckHistories(Family):
                 obj = CBlock.deserialize(W.encode_block(b))
                 fn = lambda: CheckBlock(obj, cur_time=CUR_TIME)      # noqa
             else:
-                h = {'version': 4, 'prev': b'\x11' * 32, 'merkle': b'\x22' * 32, 'time': CUR_TIME, 'bits': x, 'nonce': 0}
+                h = {'version': 4, 'prev': b'\x11' * 32, 'merkle': b'\x22' * 32, 'time': CUR_TIME, 'bits': x, 'nonce': self.GROUND_NONCE if kind == 'header_pow' else 0}
+                if kind == 'header_pow' and not RC.pow_ok(W.sha256d(W.encode_header(h)), x, RC.POW_LIMIT['signet']):
+                    raise HarnessError('the ground nonce no longer gives a valid proof of work')
                 # header hash 'zero-ish' is impossible to grind for real targets: only the range part of the rule is
                 # probed (bits above the chain limit must be rejected; bits within it are rejected here for the hash)
                 want = None if RC.pow_ok(W.sha256d(W.encode_header(h)), x, RC.POW_LIMIT[cur]) else 'proof of work'
